@@ -11,6 +11,7 @@
 (*   B c   split-between for violated c (+ re-merge)   N   nothing violated    *)
 (*   X     satisfy() returns (loop test of solve())                            *)
 (*   R d   setDesiredPositions(d) and entry of the next solve() (re-solve)     *)
+(*   Z     setStartingPositions() that reset the structure and then raised     *)
 EXTENDS Vpsc, Json, IOUtils
 Trace == ndJsonDeserialize(IOEnv.TRACE_FILE)
 VARIABLES tid, l
@@ -29,6 +30,7 @@ Step == /\ l <= Len(Ev)
         /\ LET e == Ev[l] IN
            /\ IF e.a = "X" THEN EndSat
               ELSE IF e.a = "R" THEN Retarget([v \in 1..nv |-> e.des[v]])
+              ELSE IF e.a = "Z" THEN Restart
               ELSE LET d == Derive(active) IN
                    \/ (e.a = "S" /\ Split(e.c, d))
                    \/ (e.a = "E" /\ EndSplit(d))
